@@ -57,6 +57,8 @@ structure State where
   hasBatch : Bool := false
   /-- c09: the system arbiter hosts a feeding task (no effect on the message-level behaviours) -/
   sysfeed : Bool := false
+  /-- c09: arbiters stopped and joined, in this order, once all of them exist -/
+  retire : List Nat := []
   /-- c09: the arbiter whose process-wide number equals the system id (ids are arbitrary in the model) -/
   align : Option Nat := none
   /-- c10: number of command targets (arbiters incl. the system arbiter) -/
@@ -178,13 +180,18 @@ def setUp (s : ActixNet.Rt.State) (i : Nat) (kind : String) (windDown : Bool) : 
 controller handles `h` more commands and is dropped with the system's runtime.
 Returns the state, the early-stop / post-spawn return values and, per arbiter created by a batch, whether
 its loop ended without the harness's help. -/
-def runC09 (kinds : List String) (origins : List String) (q : List QAct) (lateIds : List Nat) (variant h : Nat) :
+def runC09 (kinds : List String) (origins : List String) (q : List QAct) (lateIds : List Nat) (variant h : Nat)
+    (retire : List Nat := []) :
     ActixNet.Rt.State × List Bool × List Bool × List Bool :=
   let n := kinds.length
   let idx := List.range n
   let (s, early) := idx.foldl (fun (acc : ActixNet.Rt.State × List Bool) i =>
       let (s, r) := setUp acc.1 i (kinds.getD i "") (variant % 2 == 0)
       (s, acc.2 ++ r)) (ActixNet.Rt.init, [])
+  -- `retire`: stopped and joined — wound down, `Deregister` queued — in this order, all arbiters existing
+  let (s, early) := retire.foldl (fun (acc : ActixNet.Rt.State × List Bool) i =>
+      let (s, r) := doSend acc.1 i .stop
+      (run s (rep 8 (.runner i) ++ [.close i, .fin i]), acc.2 ++ [r])) (s, early)
   let s := run s (rep (2 * n + 3) .ctrl)
   -- the actions, in the chosen queue order; an entry issued from an arbiter's thread is a task there
   let (s, _) := q.foldl (fun (acc : ActixNet.Rt.State × List Nat) (x : QAct) =>
@@ -275,7 +282,7 @@ def observeC09 (st : State) (modeRun : Bool) (j : Nat) (log : List String) : Str
           if sameThread then max m (batchEnd ei) else m) (firstStop + 1)
       let hs := (List.range (q.length + 1)).filter (· ≥ min hmin q.length)
       hs.map fun h =>
-        let (s, early, post, alone) := runC09 st.kinds origins q0 lateIds j h
+        let (s, early, post, alone) := runC09 st.kinds origins q0 lateIds j h st.retire
         let ls := if absent then List.replicate nlate "-" else alone.map fun e => if e then "e" else "o"
         verdictC09 st.kinds modeRun s early post ls
     if cands.contains obs then obs
@@ -462,6 +469,7 @@ def originOk (st : State) (o : String) (foreignOk : Bool) : Bool :=
   o == "sys-pre" || o == "sys-task" || (foreignOk && o == "foreign") ||
     (match prefixedNat? "arb:" o with
      | some k => k < st.kinds.length && st.kinds[k]? != some "early" && st.kinds[k]? != some "done"
+         && st.kinds[k]? != some "backlog" && !st.retire.contains k
      | none => false)
 
 /-- at most three entries; an entry on the system thread in front of `run` cannot be made to wait for the
@@ -500,10 +508,19 @@ def step (st : State) (line : String) : State × String :=
     | _ => (ws, [])
   match st.proto, ws with
   | 9, ["arb", k] =>
-    if ["early", "dropped", "running", "busy", "done", "feeding"].contains k && st.kinds.length < 3 && st.entries.isEmpty
-        && st.align.isNone then
+    if ["early", "dropped", "running", "busy", "done", "feeding", "backlog"].contains k && st.kinds.length < 6
+        && st.entries.isEmpty && st.align.isNone && st.retire.isEmpty then
       ({ st with kinds := st.kinds ++ [k] }, s!"ok a{st.kinds.length}")
     else (st, "bad-op")
+  | 9, "retire" :: rest =>
+    match rest.mapM nat? with
+    | some ks =>
+      let live (k : Nat) : Bool := k < st.kinds.length &&
+        (st.kinds[k]? == some "running" || st.kinds[k]? == some "busy" || st.kinds[k]? == some "feeding")
+      if ks.isEmpty || !st.retire.isEmpty || !st.entries.isEmpty || !ks.all live || ks.eraseDups.length != ks.length then
+        (st, "bad-op")
+      else ({ st with retire := ks }, "ok")
+    | none => (st, "bad-op")
   | 9, ["sysfeed"] =>
     if st.sysfeed || !st.entries.isEmpty then (st, "bad-op") else ({ st with sysfeed := true }, "ok")
   | 9, ["align", k] =>
@@ -527,7 +544,7 @@ def step (st : State) (line : String) : State × String :=
       | _ => (rest, true)
     let acts? : Option (List BAct) := items.mapM fun it =>
       match it with
-      | "nr" => some (.new "running") | "nb" => some (.new "busy") | "nf" => some (.new "feeding")
+      | "nr" => some (.new "running") | "nb" => some (.new "busy") | "nf" => some (.new "feeding") | "nk" => some (.new "backlog")
       | "nd" => some (.new "dropped") | "ne" => some (.new "early")
       | "x" => some .sysArbStop
       | _ => ((stripPre "s" it).bind int?).map .stop
